@@ -112,4 +112,24 @@ MUTANTS = [
             self.positional_placeholders = []
 
     def indent_step"""),
+    ('c18-copy-manifest-records-dst', 'C18', 'stone/backend.py',
+     """        if self._record_output_path(output_path):
+            return output_path""",
+     """        if self._record_output_path(dst):
+            return output_path"""),
+    ('c18-expected-manifest-subset-ok', 'C18', 'stone/cli.py',
+     """    if actual == expected:
+        return
+""",
+     """    if set(actual) <= set(expected):
+        return
+"""),
+    ('c18-objc-manifest-skips-resources', 'C18', 'stone/backends/obj_c_types.py',
+     """        self.copy_to_path(
+            os.path.join(rsrc_folder, 'DBSerializableProtocol.h'),
+            rsrc_output_folder)""",
+     """        if self.output_manifest is None:
+            self.copy_to_path(
+                os.path.join(rsrc_folder, 'DBSerializableProtocol.h'),
+                rsrc_output_folder)"""),
 ]
